@@ -39,6 +39,9 @@ TREE_CATALOGUE = [
     ("R14", "override with two colons", {"net": '<struct name="U"><field name="e" type="Color:char:short"/></struct>'}),
     ("R14", "override that is not numeric", {"net": '<struct name="U"><field name="e" type="Color:string"/></struct>'}),
     ("R14", "override on a type without underlying type", {"net": '<struct name="U"><field name="e" type="string:char"/></struct>'}),
+    ("R14", "override on a basic integer type (short:char)", {"net": '<struct name="U"><field name="e" type="short:char"/></struct>'}),
+    ("R14", "override on a basic integer type (int:three), in an array", {"pub": '<struct name="U"><array name="e" type="int:three"/></struct>'}),
+    ("R14", "override on byte (byte:char), inside a chunked section of a packet", {"net/client": '<packet family="Talk" action="Request"><chunked><field name="e" type="byte:char"/></chunked></packet>'}),
     ("R14", "override equal to the type", {"net/server": '<struct name="U"><field name="e" type="char:char"/></struct>'}),
     ("R14", "override on a struct, inside a switch case", {"net": '<struct name="U"><field name="k" type="char"/><switch field="k"><case value="1"><field name="c" type="Coords:char"/></case></switch></struct>'}),
     ("R17", "unknown packet family", {"net/client": '<packet family="Nope" action="Request"><field name="a" type="char"/></packet>'}),
